@@ -86,7 +86,10 @@ class Degree(Interp):
             return a
         if not isinstance(a, DV) or not isinstance(b, DV):
             return UNK
-        return _add(a, b)
+        r = _add(a, b)
+        if r.d is None and a.d is not None and b.d is not None:
+            self.mixed.append(f"alternative paths give {a.show()} and {b.show()} for the same quantity")
+        return r
 
     def unbound(self, name, node, env):
         return CONST
